@@ -722,11 +722,11 @@ func (c *Client) onPUBREC() error {
 	c.orderedTxs.Received++
 
 	err = c.writeNoWait(c.pendingAck)
-	if err != nil {
-		return err // keeps pendingAck to retry
-	}
+	// No retry from pendingAck: the PUBREL is persisted, so the resend of
+	// the next connect submits it already. A second PUBREL on the same
+	// connection gets a second PUBCOMP, which resets the connection.
 	c.pendingAck = c.pendingAck[:0]
-	return nil
+	return err
 }
 
 // OnPUBCOMP applies the second (and final) confirm of a PublishExactlyOnce.
